@@ -7,7 +7,8 @@ use crate::fs::{err, Kind, Meta, OpenFlags, EINVAL};
 use crate::kernel::{direct, peek, syscall, OpKind};
 use std::io::{self, Read, Seek, SeekFrom, Write};
 use std::path::{Path, PathBuf};
-use std::time::{Duration, SystemTime, UNIX_EPOCH};
+use super::std_time::{SystemTime, UNIX_EPOCH};
+use std::time::Duration;
 
 #[derive(Clone, Debug)]
 pub struct Metadata(pub(crate) Meta);
@@ -65,6 +66,18 @@ impl Metadata {
     }
     pub fn ino(&self) -> u64 {
         self.0.ino
+    }
+    /// Permission bits are not modelled: every file is rw-r--r--, every directory rwxr-xr-x.
+    pub fn permissions(&self) -> Permissions {
+        use std::os::unix::fs::PermissionsExt;
+        Permissions::from_mode(if self.0.kind == Kind::Dir { 0o755 } else { 0o644 })
+    }
+    pub fn mode(&self) -> u32 {
+        if self.0.kind == Kind::Dir {
+            0o040_755
+        } else {
+            0o100_644
+        }
     }
 }
 
